@@ -308,6 +308,7 @@ func jobsRun(args []string) int {
 	phase("sequences", func() { jbSequences(r, bg, rng, *nseq, tmp, *skipShell) })
 	phase("concurrent", func() { jbConcurrent(r, bg, tmp, *skipShell) })
 	phase("cancel", func() { jbCancel(r, *skipShell) })
+	phase("contexts", func() { jbContexts(r) })
 	phase("leak", func() { jbLeak(r, bg, *leakN, *skipShell) })
 
 	writeLines(*out+"/ops.txt", r.ops)
@@ -824,8 +825,20 @@ func jbConcurrent(r *jbRun, ctx context.Context, tmp string, skipShell bool) {
 	must(os.Mkdir(counter, 0o755))
 	var scb int64
 	// mkdir is atomic: each execution claims the first free number
-	sj := job.NewShellJobWithCallback(fmt.Sprintf(`i=1; while ! mkdir %s/$i 2>/dev/null; do i=$((i+1)); done; printf "out-$i"; printf "err-$i" >&2; exit $((i %% 200))`, counter),
-		func(context.Context, *job.ShellJob) { atomic.AddInt64(&scb, 1) })
+	// (stdout is written in two parts with a pause in between, so that overlapping executions interleave their writes; one
+	// accessor call is atomic, so what a callback reads from Stdout() must be the complete output of ONE execution)
+	var mixed atomic.Value
+	sj := job.NewShellJobWithCallback(fmt.Sprintf(`i=1; while ! mkdir %s/$i 2>/dev/null; do i=$((i+1)); done; printf "out-$i"; printf "err-$i" >&2; sleep 0.01; printf ":$i"; exit $((i %% 200))`, counter),
+		func(_ context.Context, j *job.ShellJob) {
+			atomic.AddInt64(&scb, 1)
+			var a, b int
+			if so := j.Stdout(); !(func() bool {
+				n, _ := fmt.Sscanf(so, "out-%d:%d", &a, &b)
+				return n == 2 && a == b && so == fmt.Sprintf("out-%d:%d", a, a)
+			})() {
+				mixed.CompareAndSwap(nil, so)
+			}
+		})
 	const SG, SK = 8, 10
 	for g := 0; g < SG; g++ {
 		wg.Add(1)
@@ -838,9 +851,15 @@ func jbConcurrent(r *jbRun, ctx context.Context, tmp string, skipShell bool) {
 	}
 	wg.Wait()
 	so, se, exit, sst := sj.Stdout(), sj.Stderr(), sj.ExitCode(), sj.JobStatus()
-	n, _ := strconv.Atoi(strings.TrimPrefix(so, "out-"))
+	var n, n2 int
+	if k, _ := fmt.Sscanf(so, "out-%d:%d", &n, &n2); k != 2 || n != n2 || so != fmt.Sprintf("out-%d:%d", n, n) {
+		n = 0
+	}
 	r.rec(fmt.Sprintf("jobs shell %d %s", exit, jbB01(exit != 0)), jbStatus(sst))
 	r.count("concurrent", "shell")
+	if m := mixed.Load(); m != nil {
+		r.flag("ShellJob, %d×%d concurrent executions: a callback read stdout=%q, which is not the output of any single execution (want out-N:N)", SG, SK, m)
+	}
 	if !strings.HasPrefix(so, "out-") || n < 1 || n > SG*SK || se != fmt.Sprintf("err-%d", n) || exit != n%200 || (sst == job.StatusOK) != (exit == 0) {
 		r.flag("ShellJob after %d×%d concurrent executions: stdout=%q stderr=%q exit=%d status=%s do not belong to one execution", SG, SK, so, se, exit, jbStatus(sst))
 	}
@@ -955,6 +974,63 @@ func jbCancel(r *jbRun, skipShell bool) {
 	if ok && d > 800*time.Millisecond {
 		r.notes = append(r.notes, "cancelling the context of the compound command `sleep 1; :` kills only the shell: Execute returned after "+
 			"the orphaned `sleep` exited (no cmd.WaitDelay / process group kill); simple commands are exec'ed by the shell and abort promptly")
+	}
+}
+
+// jbCtxClient: honours the context of the request it is given, like http.Client: refuses a request whose context has ended,
+// and (when hang is set) stays in Do until that context ends.
+type jbCtxClient struct{ hang atomic.Bool }
+
+func (c *jbCtxClient) Do(req *http.Request) (*http.Response, error) {
+	if err := req.Context().Err(); err != nil {
+		return nil, err
+	}
+	if c.hang.Load() {
+		select {
+		case <-req.Context().Done():
+			return nil, req.Context().Err()
+		case <-time.After(8 * time.Second):
+		}
+	}
+	return &http.Response{StatusCode: 200, Body: &jbBody{}, Request: req}, nil
+}
+
+// jbContexts: consecutive executions of ONE job object under DIFFERENT contexts (a restarted scheduler, a per-execution timeout):
+// each execution works with the context it was given, not with the one of an earlier execution.
+func jbContexts(r *jbRun) {
+	cl := &jbCtxClient{}
+	cj := job.NewCurlJobWithOptions(jbRequest("http://ctx.invalid/x"), job.CurlJobOptions{HTTPClient: cl})
+	ctxA, cancelA := context.WithCancel(context.Background())
+	errA := cj.Execute(ctxA)
+	cancelA()
+	ctxB, cancelB := context.WithCancel(context.Background())
+	errB := cj.Execute(ctxB)
+	r.count("contexts", "curl-second-context-live")
+	r.rec("jobs curl 200 "+jbB01(errB != nil), jbStatus(cj.JobStatus()))
+	if errA != nil || errB != nil || cj.JobStatus() != job.StatusOK {
+		r.flag("CurlJob executed under context A (then cancelled) and again under a live context B: first returned %v, second returned %v, status=%s (the second execution must use its own context)", errA, errB, jbStatus(cj.JobStatus()))
+	}
+	cl.hang.Store(true)
+	time.AfterFunc(100*time.Millisecond, cancelB)
+	err, d, ok := jbTimed(func() error { return cj.Execute(ctxB) })
+	r.count("contexts", "curl-cancel-second-context-in-flight")
+	if !ok || d > jbAbortDeadline {
+		r.flag("cancelling the context of the CURRENT execution did not abort a CurlJob request that had run under another context before, within %v (took %v)", jbAbortDeadline, d)
+	} else if !errors.Is(err, context.Canceled) || cj.JobStatus() != job.StatusFailure || d < 50*time.Millisecond {
+		r.flag("CurlJob, third execution (request in flight, its context cancelled after 100 ms): returned %v after %v, status=%s", err, d.Round(time.Millisecond), jbStatus(cj.JobStatus()))
+	}
+	cancelB()
+
+	// the same for a function job (trivially) and a shell job
+	var seen []error
+	fj := job.NewFunctionJob(func(c context.Context) (int, error) { seen = append(seen, c.Err()); return 0, nil })
+	c1, k1 := context.WithCancel(context.Background())
+	_ = fj.Execute(c1)
+	k1()
+	_ = fj.Execute(context.Background())
+	r.count("contexts", "function")
+	if len(seen) != 2 || seen[0] != nil || seen[1] != nil {
+		r.flag("FunctionJob executed under a context that was then cancelled, and again under a live one: the function saw %v", seen)
 	}
 }
 
